@@ -1,4 +1,5 @@
 // Engine binary for the system-level checks (whole Teakra facade): C14 ...
+#include "c06_slices.h"
 #include "c14_apbp.h"
 
 int main(int argc, char** argv) {
@@ -7,11 +8,15 @@ int main(int argc, char** argv) {
     res.tier = args.tier;
     res.seed = args.seed;
     if (!args.replay.empty()) {
+        if (args.replay.rfind("c06", 0) == 0)
+            return c06::RunReplay(args.replay, res);
         if (args.replay.rfind("c14", 0) == 0)
             return c14::RunReplay(args.replay, res);
         return 2;
     }
-    if (args.sub == "c14") {
+    if (args.sub == "c06") {
+        c06::Run(args, res);
+    } else if (args.sub == "c14") {
         c14::Run(args, res);
     } else {
         std::fprintf(stderr, "usage: sys c14 ...\n");
